@@ -137,16 +137,57 @@ func (e *Engine) chanReady(st *State, me *Thread, c ChanCase) int {
 			return -1
 		}
 	}
-	// unbuffered: look for a parked partner
+	// unbuffered: look for a parked partner. A goroutine can only be met on a channel if it
+	// is blocked there: one whose select has another case ready (a closed channel, buffered
+	// data) is not in the channel's wait queue - it either has not reached the select yet or
+	// has already been woken through that other case - so it is no partner.
 	for _, u := range st.threads {
 		if u == me || u.finished || !u.started || u.wake != nil {
 			continue
 		}
-		if e.partnerCase(st, u, c) >= 0 {
+		if e.partnerCase(st, u, c) >= 0 && !e.readyByState(st, u) {
 			return 1 + u.id
 		}
 	}
 	return -1
+}
+
+// chanStateReady reports whether the operation can proceed through the channel's own state
+// (buffer space / buffered data / closed), without a partner.
+func (e *Engine) chanStateReady(st *State, c ChanCase) bool {
+	if c.ch == 0 {
+		return false
+	}
+	cd := st.heap[c.ch].(*ChanData)
+	if c.send {
+		return cd.closed || (cd.cap > 0 && len(cd.buf) < cd.cap)
+	}
+	return len(cd.buf) > 0 || cd.closed
+}
+
+// readyByState reports whether the thread's pending channel operation could proceed without
+// any partner (so the thread is not parked in a wait queue).
+func (e *Engine) readyByState(st *State, u *Thread) bool {
+	in := pendingInstr(u)
+	fr := u.top()
+	switch x := in.(type) {
+	case *ssa.UnOp:
+		if x.Op == token.ARROW {
+			return e.chanStateReady(st, ChanCase{ch: e.val(st, fr, x.X).(ChanV).obj})
+		}
+	case *ssa.Send:
+		return e.chanStateReady(st, ChanCase{ch: e.val(st, fr, x.Chan).(ChanV).obj, send: true})
+	case *ssa.Select:
+		if !x.Blocking {
+			return true
+		}
+		for _, s := range x.States {
+			if e.chanStateReady(st, ChanCase{ch: e.val(st, fr, s.Chan).(ChanV).obj, send: s.Dir == types.SendOnly}) {
+				return true
+			}
+		}
+	}
+	return false
 }
 
 // partnerCase returns the index of the case of u's pending chan op that complements c, or -1.
